@@ -55,13 +55,13 @@ Lemma pi_examples :
   fst (query pi_doc pi_doc_e5 ctx_default) = Ok (XNodes [6]).
 Proof. vm_compute. auto. Qed.
 
-(** unsupported constructs are errors or empty node-sets: $v, id("x") with and without a DTD,
-    the parent of an attribute *)
+(** unsupported constructs are errors or empty node-sets: $v, id("x") with and without a DTD;
+    the parent of an attribute is its element (//@star/.. on <r a="1">...) *)
 Lemma unsupported_examples :
   fst (query pi_doc pi_doc_e2 ctx_default) = Err (XErrNotFoundVariable [118]) /\
   fst (query pi_doc pi_doc_e6 ctx_default) = Ok (XNodes []) /\
   fst (query dtd_doc dtd_doc_e2 ctx_default) = Err (XErrNotFoundFunction [105; 100]) /\
-  fst (query ex_doc pi_doc_e7 ctx_default) = Ok (XNodes []) /\
+  fst (query ex_doc pi_doc_e7 ctx_default) = Ok (XNodes [1]) /\
   expr_total pi_doc_e2 = true /\ expr_total pi_doc_e6 = true /\ expr_total pi_doc_e7 = true.
 Proof. vm_compute. repeat split; reflexivity. Qed.
 
